@@ -3,7 +3,7 @@
 From Coq Require Import List Arith Bool.
 From PG Require Import Base.ListSet Graph.MGraph C08.Model C09.Model C09.Oracle C09.Spec C09.Proofs C09.Bounded_n3 C09.Bounded_n4 C09.Bounded C09.Refuted C09.Cover C09.Ext
                        C08.Spec C09.Component C09.Whole C09.WholeExample C09.ChordalDefs C09.Chordal_b5 C09.HypsB
-                       C08.Reflect C08.Chordal C08.ChordalOrient C09.ChordalAll C08.Proofs C09.Rounds.
+                       C08.Reflect C08.Chordal C08.ChordalOrient C09.ChordalAll C08.Proofs C09.Rounds C09.Meek4Elim C09.Meek4Forest C09.Meek4CT.
 Import ListNotations.
 
 (* unbounded, every mark graph: nodes, adjacencies, arrowheads and tails kept, circles resolved, no circle left *)
@@ -172,3 +172,48 @@ Theorem p2m_shape_all_sizes_from_meek4 : forall g, meek4_on chordal_skel ->
                  arrow_at g a c = true /\ arrow_at g b c = true).
 Proof. exact p2m_shape_meek4. Qed.
 Print Assumptions p2m_shape_all_sizes_from_meek4.
+
+(* ---- Meek's Theorem 4 by elimination orderings (C09/Meek4Elim.v, C09/Meek4Forest.v) ----
+   a compatible perfect elimination ordering (sinks first, directed edges respected) IS a v-structure-free consistent
+   extension, and it can be built greedily as long as every set R of remaining nodes has an ELIGIBLE node: simplicial in R,
+   no directed edge into R, and different from a while b remains *)
+Theorem meek4_from_eligible : forall P, eligible_nodes_exist P -> meek4_on P.
+Proof. exact meek4_from_eligible_nodes. Qed.
+Print Assumptions meek4_from_eligible.
+
+(* PROVED for all sizes on triangle-free skeletons; with chordality these are the forests (paths, stars, trees) *)
+Theorem meek4_holds_on_forests : meek4_on triangle_free.
+Proof. exact meek4_forest. Qed.
+Print Assumptions meek4_holds_on_forests.
+
+(* PARTIAL form of p2m_shape_all_sizes_chordal_unconditional: no hypothesis on the rounds when the circle component is a forest.
+   MISSING for arbitrary chordal circle components: eligible_nodes_exist chordal_skel, i.e. in a PDAG closed under R1-R4 with
+   a v-structure-free extension, a node a with an undirected edge a - b is never the ONLY simplicial node without directed
+   edge into R, for any set R containing a and b *)
+Theorem p2m_shape_all_sizes_forest_partial : forall g,
+  pag_hyps g -> pwf (temp_cpdag g) -> chordal_g (temp_cpdag g) -> triangle_free (temp_cpdag g) ->
+  let m := pag_to_mag_model g in
+  acyclic m /\
+  (forall a b, has_b m a b = true -> dpath m a b -> False) /\
+  (forall a c b, arrow_at m a c = true -> arrow_at m b c = true -> a <> b -> adjacent m a b = false ->
+                 arrow_at g a c = true /\ arrow_at g b c = true).
+Proof. exact p2m_shape_forest_partial. Qed.
+Print Assumptions p2m_shape_all_sizes_forest_partial.
+
+(* ct_skel: the three nodes of every triangle have the same closed neighbourhood, i.e. every connected component of the
+   skeleton is a clique or triangle-free (with chordality: a tree); contains cluster and triangle_free skeletons *)
+Theorem meek4_holds_on_cliques_and_trees : meek4_on ct_skel.
+Proof. exact meek4_ct. Qed.
+Print Assumptions meek4_holds_on_cliques_and_trees.
+
+(* the strongest PARTIAL form of p2m_shape_all_sizes_chordal_unconditional reached: all sizes, no hypothesis on the rounds,
+   for PAGs whose circle component is chordal with every connected component a clique or a tree *)
+Theorem p2m_shape_all_sizes_cliques_and_trees_partial : forall g,
+  pag_hyps g -> pwf (temp_cpdag g) -> chordal_g (temp_cpdag g) -> ct_skel (temp_cpdag g) ->
+  let m := pag_to_mag_model g in
+  acyclic m /\
+  (forall a b, has_b m a b = true -> dpath m a b -> False) /\
+  (forall a c b, arrow_at m a c = true -> arrow_at m b c = true -> a <> b -> adjacent m a b = false ->
+                 arrow_at g a c = true /\ arrow_at g b c = true).
+Proof. exact p2m_shape_ct_partial. Qed.
+Print Assumptions p2m_shape_all_sizes_cliques_and_trees_partial.
